@@ -17,9 +17,9 @@ import (
 )
 
 func TestC06(t *testing.T) {
-	V.Rule("lab: requests with 0-6 existing Via entries and 0-4 Record-Route entries in any line layout and at any position among the other headers, over the three request paths (backend, Route, static route), must-record-route absent/true/false per listen entry, UDP and TCP ingress, next hop learned through the receiving listener, learned through another listener (an earlier request came from that host), or never learned. Oracle: Via list = [SIP/2.0/<listener transport> addr:port;branch=z9hG4bK+a generated part, never seen before in the run] + input iff destination is a backend or a learned hop (else = input); Record-Route list = [<sip:addr:port;lr>] + input iff a Via was pushed and (input has Record-Route or must-record-route), else = input. Hops known only from the message being routed, or known by name vs by address only, are don't-cares. Branch freshness over every request of the run plus a dedicated run of 12000 (thorough: 20000) relayed requests. non-trivial = >= 2 existing Via entries in >= 2 lines, or >= 1 existing Record-Route, or the not-learned / other-listener variants; distinct by message")
+	V.Rule("lab: requests with 0-6 existing Via entries (now and then, below the sender's, a well-formed one this proxy cannot decode - IPv6 reference, blanks around the slashes or the colon - alone on its line or sharing it) and 0-4 Record-Route entries in any line layout and at any position among the other headers, over the three request paths (backend, Route, static route), must-record-route absent/true/false per listen entry, UDP and TCP ingress, next hop learned through the receiving listener, learned through another listener (an earlier request came from that host), or never learned. Oracle: Via list = [SIP/2.0/<listener transport> addr:port;branch=z9hG4bK+a generated part, never seen before in the run] + input iff destination is a backend or a learned hop (else = input); Record-Route list = [<sip:addr:port;lr>] + input iff a Via was pushed and (input has Record-Route or must-record-route), else = input. Hops known only from the message being routed, or known by name vs by address only, are don't-cares. Branch freshness over every request of the run plus a dedicated run of 12000 (thorough: 20000) relayed requests. non-trivial = >= 2 existing Via entries in >= 2 lines, or >= 1 existing Record-Route, or the not-learned / other-listener variants; distinct by message")
 	V.Assume("branch freshness is a probabilistic oracle: 48 random bits, P(collision among 20000) < 1e-6")
-	V.Require("an unrelated TCP connection ended before the request", "via pushed", "no via (hop not learned)", "via names another listener", "rr added", "rr not added (policy)", "existing rr kept", "path:backend", "path:route", "path:static", ">=2 vias in >=2 lines")
+	V.Require("an existing Via entry the proxy cannot decode, sharing its line with decodable ones", "an unrelated TCP connection ended before the request", "via pushed", "no via (hop not learned)", "via names another listener", "rr added", "rr not added (policy)", "existing rr kept", "path:backend", "path:route", "path:static", ">=2 vias in >=2 lines")
 	vars := []stdVariant{
 		{MustRR: [3]string{"", "true", "false"}, NoReceived: [3]string{"", "", "true"}},
 		{Keep: "on", MustRR: [3]string{"true", "", ""}},
@@ -53,7 +53,7 @@ func TestC06(t *testing.T) {
 				V.Class("an unrelated TCP connection ended before the request")
 			}
 		}
-		rc := s.gRelayRequest(rt, relayOpts{Paths: []string{"backend", "route", "static"}, MaxVias: 6, MaxRRs: 4, MaxExt: 6, MaxLong: 0, MaxBody: 60, Entries: []int{0, 1, 2}})
+		rc := s.gRelayRequest(rt, relayOpts{JoinOpaque: true, Paths: []string{"backend", "route", "static"}, MaxVias: 6, MaxRRs: 4, MaxExt: 6, MaxLong: 0, MaxBody: 60, Entries: []int{0, 1, 2}})
 		res, err := s.runRequestJournal(t.Name()+"/insert", rc, func(exp mOutcome) any { return rc })
 		if _, lost := err.(labLost); lost {
 			failf(rt, "%v", err)
@@ -88,6 +88,16 @@ func TestC06(t *testing.T) {
 		V.ClassIf(len(inRR) > 0, "existing rr kept")
 		V.ClassIf(len(vias) >= 2 && vlines >= 2, ">=2 vias in >=2 lines")
 		V.ClassIf(len(vias) == 0, "no existing via")
+		for _, h := range rc.Msg.Hdrs {
+			if h.Kind == hVia {
+				opaque := false
+				for _, v := range h.Vias {
+					opaque = opaque || v.Raw != ""
+				}
+				V.ClassIf(opaque, "an existing Via entry the proxy cannot decode")
+				V.ClassIf(opaque && len(h.Vias) > 1, "an existing Via entry the proxy cannot decode, sharing its line with decodable ones")
+			}
+		}
 		if (len(vias) >= 2 && vlines >= 2) || len(inRR) > 0 || (pushedDefinite && (res.Pushed[0] == nil || res.Pushed[0].Entry != rc.Ingress.Entry)) {
 			V.NonTrivial(string(rc.Msg.Bytes()))
 		}
